@@ -135,7 +135,10 @@ fn run_case(c0: &WtCase, seed: u64, idx: u64, st: &mut Stats) -> Vec<Violation> 
         }
     }
     rng.shuffle(&mut probes);
-    probes.truncate(40);
+    // the qualifier part of qualified uses first (the server answers for the identifier behind the dot there)
+    probes.sort_by_key(|p| if p.2 == "qualifier-of-use" { 0 } else { 1 });
+    let keep = 40 + probes.iter().filter(|p| p.2 == "qualifier-of-use").count().min(12);
+    probes.truncate(keep);
     let mut lsp = match Lsp::start(&dir.path, None) {
         Ok(l) => l,
         Err(e) => {
